@@ -866,42 +866,26 @@ func ruleLock3(c *Ctx) []*Ob {
 				o.trivial(fn, construct, c.instrPos(a.Instr), "table exception (helper called only from "+owner+"): "+lock3Exempt[owner])
 				continue
 			}
-			// starts: function entry and the point after every boundary
-			starts := []point{entryPoint(f)}
-			eachInstr(f, func(i ssa.Instruction) {
-				if isLockBoundary(i) {
-					starts = append(starts, after(i))
-				}
-			})
-			bad := false
-			for _, st := range starts {
-				walk(st, walkOpts{visit: func(i ssa.Instruction, t *tracker) bool {
-					if i == a.Instr {
-						bad = true
-						return true
-					}
-					return isCallOf(i, inval) || isLockBoundary(i)
-				}})
-			}
-			if bad {
-				// or: every path from the store reaches the invalidation before the section ends
-				post := true
-				walk(after(a.Instr), walkOpts{visit: func(i ssa.Instruction, t *tracker) bool {
-					if isCallOf(i, inval) {
-						return true
-					}
+			bad := !sectionInvalidates(f, a.Instr, inval)
+			if bad && !isExportedRoot(f) && f.Parent() == nil {
+				// a helper that runs inside its callers' critical section (no Lock / Unlock / Wait of its own): the
+				// section is the caller's, so the invalidation may be there - at every call site
+				own := false
+				eachInstr(f, func(i ssa.Instruction) {
 					if isLockBoundary(i) {
-						post = false
-						return true
+						own = true
 					}
-					if _, isRet := i.(*ssa.Return); isRet {
-						post = false
-						return true
+				})
+				if sites := c.Callers(f); !own && len(sites) > 0 {
+					all := true
+					for _, cs := range sites {
+						if cs.Instr.Common().StaticCallee() != f || !sectionInvalidates(cs.Instr.Parent(), cs.Instr, inval) {
+							all = false
+						}
 					}
-					return false
-				}})
-				if post {
-					bad = false
+					if all {
+						bad = false
+					}
 				}
 			}
 			why := "invalidateLatestSnapshotLOCKED() is called in the same critical section as the store (no Unlock/Lock/Wait in between)"
@@ -912,6 +896,50 @@ func ruleLock3(c *Ctx) []*Ob {
 		}
 	}
 	return o.list
+}
+
+// sectionInvalidates: the critical section of f in which site executes calls inval - before the site on every path
+// from the section's start, or after it on every path to the section's end.
+func sectionInvalidates(f *ssa.Function, site ssa.Instruction, inval *ssa.Function) bool {
+	// starts: function entry and the point after every boundary
+	starts := []point{entryPoint(f)}
+	eachInstr(f, func(i ssa.Instruction) {
+		if isLockBoundary(i) {
+			starts = append(starts, after(i))
+		}
+	})
+	bad := false
+	for _, st := range starts {
+		walk(st, walkOpts{visit: func(i ssa.Instruction, t *tracker) bool {
+			if i == site {
+				bad = true
+				return true
+			}
+			return isCallOf(i, inval) || isLockBoundary(i)
+		}})
+	}
+	if bad {
+		// or: every path from the site reaches the invalidation before the section ends
+		post := true
+		walk(after(site), walkOpts{visit: func(i ssa.Instruction, t *tracker) bool {
+			if isCallOf(i, inval) {
+				return true
+			}
+			if isLockBoundary(i) {
+				post = false
+				return true
+			}
+			if _, isRet := i.(*ssa.Return); isRet {
+				post = false
+				return true
+			}
+			return false
+		}})
+		if post {
+			bad = false
+		}
+	}
+	return !bad
 }
 
 // ---------------------------------------------------------------- LOCK-4
